@@ -12,6 +12,10 @@ PYG_ECHO = '''from pygopherd.handlers.pyg import PYGBase
 from pygopherd.gopherentry import GopherEntry
 
 
+def hx(q):
+    return "NONE" if q is None else q.encode("utf-8", "surrogateescape").hex()
+
+
 class PYGMain(PYGBase):
     def canhandlerequest(self):
         return True
@@ -23,17 +27,63 @@ class PYGMain(PYGBase):
         entry = GopherEntry(self.selector, self.config)
         entry.type = "0"
         entry.mimetype = "text/plain"
-        entry.name = "echo"
+        entry.name = "echo Q=" + hx(self.searchrequest)
         return entry
 
     def write(self, wfile):
-        q = self.searchrequest
-        if q is None:
-            wfile.write(b"Q=NONE")
-        else:
-            wfile.write(b"Q=" + q.encode("utf-8", "surrogateescape").hex().encode())
+        wfile.write(("S=" + hx(self.selector) + ";Q=" + hx(self.searchrequest)).encode())
 '''
-SH_ECHO = "#!/bin/sh\nprintf 'Q='\nprintf '%s' \"$SEARCHREQUEST\" | od -An -v -tx1 | tr -d ' \\n'\n"
+SH_ECHO = ("#!/bin/sh\nprintf 'S='\nprintf '%s' \"$SELECTOR\" | od -An -v -tx1 | tr -d ' \\n'\n"
+           "printf ';Q='\nprintf '%s' \"$SEARCHREQUEST\" | od -An -v -tx1 | tr -d ' \\n'\n")
+TAL_ECHO = '<html><body><p>Q=[<span tal:replace="handler/searchrequest">x</span>]</p></body></html>\n'
+
+# a program that answers with a menu; its entry says nothing about a MIME type
+PYG_MENU = '''from pygopherd.handlers.pyg import PYGBase
+from pygopherd.gopherentry import GopherEntry
+
+
+class PYGMain(PYGBase):
+    def canhandlerequest(self):
+        return True
+
+    def isdir(self):
+        return True
+
+    def getentry(self):
+        entry = GopherEntry(self.selector, self.config)
+        entry.type = "1"
+        entry.name = "a menu made by a program"
+        return entry
+
+    def getdirlist(self):
+        e = GopherEntry("/a.txt", self.config)
+        e.type = "0"
+        e.name = "alpha from a program"
+        e.mimetype = "text/plain"
+        return [e]
+'''
+
+LISTING_TYPE = {"http": b"text/html", "https": b"text/html", "wap": b"text/vnd.wap.wml", "gemini": b"text/gemini",
+                "spartan": b"text/gemini"}
+
+
+def menu_objects():
+    """objects that are served as menus without being directories"""
+    import io
+    import zipfile
+    buf = io.BytesIO()
+    with zipfile.ZipFile(buf, "w") as z:
+        z.writestr("in.txt", "inside\n")
+        z.writestr("sub/deep.txt", "deep\n")
+    t = [{"path": "solo.gophermap", "data": "isolo map\tfake\t(NULL)\t0\n0alpha\t/a.txt\n1remote\t/r\tgopher.other.example\t7070\n0rel\tdir1/c.txt\n"},
+         {"path": "dir1/inner.gophermap", "data": "0charlie\tc.txt\n1up\t/\n"},
+         {"path": "menu.pyg", "data": PYG_MENU, "mode": 0o755},
+         {"path": "arch.zip", "data": buf.getvalue().decode("latin-1")},
+         {"path": "box2.mbox", "data": trees.MBOX}]
+    for e in t:
+        e["mtime"] = 1_700_000_000
+    return t
+
 
 FULL_HANDLERS = ("[url.HTMLURLHandler, gophermap.BuckGophermapHandler, mbox.MaildirFolderHandler, "
                  "mbox.MaildirMessageHandler, UMN.UMNDirHandler, tal.TALFileHandler, html.HTMLFileTitleHandler, "
@@ -92,6 +142,11 @@ def run(tier):
     cfg7["pygopherd"] = {"abstract_entries": "always", "abstract_headers": "on"}
     specs.append({"tree": trees.rich_tree(rng, hostile=True, n_hostile=4) + trees.remote_links(rng, n=10), "config": cfg7,
                   "_ae": "always", "server_port": 7070})
+    cfgm = dict(trees.SITE_CONFIG)
+    cfgm["pygopherd"] = {"abstract_entries": "always", "abstract_headers": "on"}
+    cfgm["handlers.HandlerMultiplexer"] = {"handlers": "[ZIP.ZIPHandler, " + FULL_HANDLERS[1:]}
+    cfgm["handlers.ZIP.ZIPHandler"] = {"enabled": "true"}
+    specs.append({"tree": trees.rich_tree(rng, hostile=False) + menu_objects(), "config": cfgm, "_ae": "always"})
     all_pages = pgsite.crawl_worlds(specs)
     ndirs = ndocs = 0
     for wi, pages in enumerate(all_pages):
@@ -115,6 +170,18 @@ def run(tier):
                     if proto == "gopher":
                         continue
                     chk.count((wi, sel, proto), nontrivial=len(refview) > 0)
+                    if proto in LISTING_TYPE:
+                        # what is listed as a menu and read as a menu is announced as the protocol's listing type
+                        try:
+                            announced = mime_of(proto, p["out"].encode("latin-1"))
+                        except (V.Malformed, KeyError):
+                            announced = None
+                        if announced is not None and announced.split(b";")[0].strip() != LISTING_TYPE[proto]:
+                            found = True
+                            chk.violation({"what": "a menu is announced with another type than the protocol's listing type",
+                                           "protocol": proto, "selector_latin1": sel, "announced": announced.decode("latin-1"),
+                                           "expected": LISTING_TYPE[proto].decode(), "response_head_latin1": p["out"][:200],
+                                           "tree": specs[wi]["tree"]}, tag=f"menu-kind-differs:{proto}")
                     try:
                         view = pgsite.view_page(proto, p["out"].encode("latin-1"), wport)
                     except V.Malformed as e:
@@ -297,7 +364,8 @@ def run(tier):
                            "tree": tree}, tag=f"trailing-slash:{meta[i][0]}")
 
     # ---- search strings reach the handler unchanged ----
-    qtree = [{"path": "echo.pyg", "data": PYG_ECHO, "mode": 0o755}, {"path": "q.sh", "data": SH_ECHO, "mode": 0o755}]
+    qtree = [{"path": "echo.pyg", "data": PYG_ECHO, "mode": 0o755}, {"path": "q.sh", "data": SH_ECHO, "mode": 0o755},
+             {"path": "echo.html.tal", "data": TAL_ECHO}]
     qcfg = dict(trees.SITE_CONFIG)
     qcfg["handlers.HandlerMultiplexer"] = {"handlers": FULL_HANDLERS}
     queries = ["needle", "two words", "a+b=c&d", "100%", "caf\u00e9", "\udcae", "\udcff\udcfe", "x\u20acy", "q?r", "sl/ash", "p%41q",
@@ -352,6 +420,169 @@ def run(tier):
                            "handler_selector": sel, "query": q, "query_bytes_hex": want.decode(), "handler_saw_hex": got.decode() if got else None,
                            "request_latin1": gen.lat(gen.request_bytes(proto, sel, search=q)[0]), "response_latin1": o["out"][:300]},
                           tag=f"query-differs:{proto}:{kind}")
+    # ---- no search string at all: absent in one protocol and request form, absent in every one ----
+    def seen_query(sel, out):
+        """what the echo object at sel reports as its search string: a hex string, '' or 'NONE' (both: none), or None"""
+        if sel.endswith(".tal"):
+            m_ = re.search(rb"Q=\[(.*?)\]", out, re.S)
+            return None if m_ is None else m_.group(1).hex().encode()
+        m_ = re.search(rb"Q=([0-9a-f]*|NONE)", out)
+        return m_.group(1) if m_ else None
+
+    nreqs, nmeta = [], []
+    for sel in ("/echo.pyg", "/q.sh", "/echo.html.tal"):
+        for proto in gen.PROTOCOLS:
+            forms = ["+", "$", "!", "+text/plain", "$+ABSTRACT"] if proto in ("gopherplus", "sgopherplus") else [None]
+            for form in forms:
+                for q in (None, "needle"):
+                    if form == "!" and sel != "/echo.pyg":
+                        continue   # only the PYG object shows its search string in its item descriptor
+                    data, tls = gen.request_bytes(proto, sel, search=q, gplus=form or "+")
+                    nreqs.append({"data": gen.lat(data), "tls": tls})
+                    nmeta.append((proto, form, sel, q, data))
+    r = impl_run([{"op": "requests_socket", "tree": qtree, "config": qcfg, "requests": nreqs}])[0]
+    if not r["ok"]:
+        raise RuntimeError(r["err"] + r.get("tb", ""))
+    nnone = 0
+    for (proto, form, sel, q, data), o in zip(nmeta, r["res"]["results"]):
+        nnone += 1
+        chk.count(("no-query", proto, form, sel, q), nontrivial=True)
+        got = seen_query(sel, o["out"].encode("latin-1"))
+        want = b"" if q is None else q.encode().hex().encode()
+        if got == b"NONE":
+            got = b""
+        if got != want:
+            found = True
+            chk.violation({"what": ("a request without a search string reaches the handler with one" if q is None else
+                                    "a search string does not reach the handler as the same string"),
+                           "protocol": proto, "gopherplus_form": form, "handler_selector": sel, "query": q,
+                           "handler_saw_hex": got.decode() if got is not None else None,
+                           "handler_saw": bytes.fromhex(got.decode()).decode("latin-1") if got else got,
+                           "request_latin1": gen.lat(data), "response_latin1": o["out"][:300]},
+                          tag=(f"phantom-query:{proto}" if q is None else f"query-differs:{proto}:utf8"))
+
+    # ---- search items followed from the listing, each protocol's own way, to the handler ----
+    # A type-7 item whose selector holds characters that mean something in a URL is listed in every protocol; a
+    # client submits a query the way that protocol's listing tells it to (TAB field; FORM ACTION; WML go; the
+    # Gemini prompt: link -> 10 -> link?query -> 30 -> target; Spartan input link with a body).  The handler
+    # must be the listed one and see the submitted string.
+    import html as _html
+    import urllib.parse as _up
+    # ("?" and "|" are left out: in a selector they separate a script from its arguments, in every protocol alike)
+    odd_dirs = ["plain", "c#", "pct%41", "sp ace", "\xae dir", "a+b", "semi;colon", "am&p=x", "caf\xc3\xa9", "x%zz", "d:colon@at"]
+    stree, blocks = [], []
+    for i, d in enumerate(odd_dirs):
+        ext, body_ = (("pyg", PYG_ECHO) if i % 2 == 0 else ("sh", SH_ECHO))
+        stree.append({"path": d + "/find." + ext, "data": body_, "mode": 0o755})
+        blocks.append("Name=find %d\nType=7\nPath=/%s/find.%s\nHost=+\nPort=+\nNumb=%d\n" % (i, d, ext, i + 1))
+    stree.append({"path": "srch/.Links", "data": "\n".join(blocks)})
+    sjob = {"op": "requests_socket", "tree": stree, "config": qcfg}
+    protos = list(gen.PROTOCOLS)
+    r = impl_run([dict(sjob, requests=[{"data": gen.lat(gen.request_bytes(pr, "/srch")[0]), "tls": gen.TLS[pr]} for pr in protos])])[0]
+    if not r["ok"]:
+        raise RuntimeError(r["err"] + r.get("tb", ""))
+    HOSTB = b"gopher.example"
+
+    def search_items(proto, out):
+        """per listed search item: what the client has to use to submit a query (selector bytes or href str)"""
+        v = V.validate(proto, out)
+        body = v["body"]
+        if proto in ("gopher", "sgopher", "gopherplus", "sgopherplus"):
+            return [m_["selector"] for m_ in V.parse_gopher_menu(body) if m_["type"] == "7"]
+        if proto in ("http", "https"):
+            return [row["form"] for row in V.html_rows(body) if row["form"] is not None]
+        if proto == "wap":
+            return [_html.unescape(h_) for h_ in re.findall(r'<go method="get" href="([^"]*)">', body.decode("utf-8", "surrogateescape"))]
+        return [l_["href"] for l_ in V.gemtext_links(body) if proto == "gemini" or l_["search"]]
+
+    listed = {}
+    for pr, o in zip(protos, r["res"]["results"]):
+        try:
+            listed[pr] = search_items(pr, o["out"].encode("latin-1"))
+        except (V.Malformed, KeyError) as e:
+            listed[pr] = []
+        if len(listed[pr]) != len(odd_dirs):
+            found = True
+            chk.violation({"what": "a directory of search items does not list them all as search items", "protocol": pr,
+                           "listed": len(listed[pr]), "expected": len(odd_dirs), "response_latin1": o["out"][:600]},
+                          tag=f"search-flow-listing:{pr}")
+    truth = listed.get("gopher", [])
+    squeries = ["needle", "two words", "a&b=c#d%41"]
+
+    def submit(proto, item, q):
+        qb = q.encode("utf-8")
+        if proto in ("gopher", "sgopher"):
+            return item + b"\t" + qb + b"\r\n"
+        if proto in ("gopherplus", "sgopherplus"):
+            return item + b"\t" + qb + b"\t+\r\n"
+        href = item.encode("utf-8", "surrogateescape")
+        if proto in ("http", "https", "wap"):
+            return b"GET " + href + b"?searchrequest=" + _up.quote_from_bytes(qb, safe="").encode() + b" HTTP/1.0\r\n\r\n"
+        if proto == "gemini":
+            return b"gemini://" + HOSTB + href + b"?" + _up.quote_from_bytes(qb, safe="").encode() + b"\r\n"
+        return HOSTB + b" " + href + b" " + str(len(qb)).encode() + b"\r\n" + qb
+
+    sreqs, smeta = [], []
+    for pr in protos:
+        for i, item in enumerate(listed[pr]):
+            if i >= len(truth):
+                break
+            for q in squeries:
+                sreqs.append({"data": gen.lat(submit(pr, item, q)), "tls": gen.TLS[pr]})
+                smeta.append((pr, i, q, "submit"))
+            if pr == "gemini":
+                sreqs.append({"data": gen.lat(b"gemini://" + HOSTB + item.encode("utf-8", "surrogateescape") + b"\r\n"), "tls": True})
+                smeta.append((pr, i, None, "prompt"))
+    r = impl_run([dict(sjob, requests=sreqs)])[0]
+    if not r["ok"]:
+        raise RuntimeError(r["err"] + r.get("tb", ""))
+    final = []     # (proto, item index, query, request bytes, reply bytes)
+    follow, fmeta = [], []
+    for (pr, i, q, what), rq, o in zip(smeta, sreqs, r["res"]["results"]):
+        out = o["out"].encode("latin-1")
+        if pr != "gemini":
+            final.append((pr, i, q, rq["data"], out))
+            continue
+        m_ = re.match(rb"(\d\d) ([^\r\n]*)\r\n", out)
+        if what == "prompt":
+            if not m_ or m_.group(1) != b"10":
+                found = True
+                chk.violation({"what": "a Gemini search link does not lead to an input prompt (status 10)", "item": i,
+                               "selector_latin1": gen.lat(truth[i]), "request_latin1": rq["data"], "response_latin1": o["out"][:200]},
+                              tag="search-flow:gemini:prompt")
+            continue
+        if m_ and m_.group(1) in (b"30", b"31"):
+            # the redirect target is a URL reference; the client resolves it against the server and asks again
+            follow.append({"data": gen.lat(b"gemini://" + HOSTB + m_.group(2) + b"\r\n"), "tls": True})
+            fmeta.append((pr, i, q, rq["data"]))
+        else:
+            final.append((pr, i, q, rq["data"], out))
+    if follow:
+        r = impl_run([dict(sjob, requests=follow)])[0]
+        if not r["ok"]:
+            raise RuntimeError(r["err"] + r.get("tb", ""))
+        for (pr, i, q, first), rq, o in zip(fmeta, follow, r["res"]["results"]):
+            final.append((pr, i, q, first + " -> " + rq["data"], o["out"].encode("latin-1")))
+    nflow = 0
+    nbad = {}
+    for pr, i, q, req, out in final:
+        nflow += 1
+        chk.count(("search-flow", pr, i, q), nontrivial=True)
+        m_ = re.search(rb"S=([0-9a-f]*);Q=([0-9a-f]*|NONE)", out)
+        got = (bytes.fromhex(m_.group(1).decode()), m_.group(2)) if m_ else None
+        want = (truth[i], q.encode("utf-8").hex().encode())
+        if got != want:
+            found = True
+            nbad[pr] = nbad.get(pr, 0) + 1
+            if nbad[pr] > 3:
+                continue
+            chk.violation({"what": "a query submitted the way the listing says does not reach the listed search item with that query",
+                           "protocol": pr, "listed_selector_latin1": gen.lat(truth[i]), "query": q,
+                           "handler_selector_latin1": gen.lat(got[0]) if got else None,
+                           "handler_saw_query": (bytes.fromhex(got[1].decode()).decode("latin-1") if got[1] != b"NONE" else None) if got else None,
+                           "requests_latin1": req, "response_latin1": out[:300].decode("latin-1")},
+                          tag=f"search-flow:{pr}:" + ("selector" if got and got[0] != want[0] else "query" if got else "no-answer"))
+
     # ---- the same over real sockets, the request arriving in pieces ----
     # A query reaches the handler as the same string however the network cuts the request: in one segment,
     # cut in the middle, cut after the request line, cut inside what follows the request line, byte by byte.
@@ -424,7 +655,7 @@ def run(tier):
     chk.sample({"kind": "listing", "selector": "/", "gopher_view": repr(pgsite.view_page("gopher", [p for p in all_pages[0] if p["proto"] == "gopher"][0]["out"].encode("latin-1"))[:400])})
     chk.sample({"kind": "query", "protocol": meta[3][0], "query": meta[3][2]})
     chk.coverage["oracle"] = {"trees": ntrees, "directory_pages": ndirs, "documents": ndocs, "trailing_slash_pairs": nslash,
-                              "query_submissions": nq,
+                              "query_submissions": nq, "no_query_requests": nnone, "search_flow_submissions": nflow,
                               "gopherplus_request_forms": nforms, "gopherplus_item_descriptors": nbang, "live_socket_query_submissions": nlive}
     chk.coverage["rule"] = ("every directory of each generated tree viewed through all 9 protocol variants, canonical (kind,name,target) "
                             "sequences compared with plain Gopher's; MIME type and body of every document compared across protocols; "
@@ -433,7 +664,8 @@ def run(tier):
                             "targets compared as (host, port, type, selector) after parsing gopher:// URLs back (RFC 4266); "
                             "directory selectors with and without trailing slash; search strings (ASCII, UTF-8, non-UTF-8 bytes, URL "
                             "metacharacters) submitted through each protocol's own mechanism to a PYG and a CGI echo handler, in-process and over "
-                            "real sockets to the real ThreadingTCPServer with the request delivered whole, cut in two or three, cut after "
+                            "real sockets (also with no query at all: absent everywhere; and search items with URL-significant characters followed from "
+                            "each protocol's listing through its own submission mechanism, Gemini's prompt/redirect flow included) to the real ThreadingTCPServer with the request delivered whole, cut in two or three, cut after "
                             "the request line, cut inside what follows it, and byte by byte")
     # ---- K: the Coq renderers / readers against the real code (harness/k06.py) ----
     kmism, kerr, kdetails = run_k06(chk, tier)
